@@ -150,7 +150,9 @@ def _confirm(ctx, binp, mode, beh, tag):
     if mode != "gen":
         infile = os.path.join(ctx.scratch, "re-%s.ndjson" % tag)
         with open(infile, "w") as f:
-            f.write(json.dumps(beh) + "\n")
+            # what the coordinator publishes depends on goroutine timing: give a rejection several chances to recur
+            for _ in range(30 if mode == "coord" else 1):
+                f.write(json.dumps(beh) + "\n")
     r = Run(ctx, binp, mode, "re-" + tag, infile)
     bad, _, _ = _validate(ctx, r.trace, "re-" + tag)
     if not bad:
